@@ -205,8 +205,84 @@ def hyper_ob(kind, d, m, hp_shapes, transforms, order=None):
                                 "jinns.utils._hyperpinn:_get_param_nb", PM + "PINN.__call__"])
 
 
+def create_hyper_ob(kind, d, m, hyper_arch, shared=False):
+    """create_HYPERPINN: the hyper-network it builds maps the `hypernet_input_size` flattened hyper-parameters to exactly
+    as many numbers as the inner network has parameters (first / last layer sizes rewritten, the rest of the given or
+    copied architecture kept), and the wrapper it returns evaluates as HYPERPINN.eval_nn promises.
+    hyper_arch: 'opaque' (eqx_list_hyper = one uninterpreted layer with deliberately wrong declared sizes) or
+    'default' (eqx_list_hyper=None: a copy of the inner architecture, real Linear layers with their initial weights)"""
+    din = {"ODE": 1, "statio": d, "nonstatio": 1 + d}[kind]
+    hid = 2
+    keys = ["a", "b"]
+    hp_shapes = [(), (2,)]
+    nin = 3
+    slices = (jnp.s_[0:1], jnp.s_[-1]) if shared else None
+    def build():
+        from jinns.utils._hyperpinn import create_HYPERPINN
+        sizes = [hid * din, hid, m * hid, m]
+        total = sum(sizes)
+        fac = _Factory("HY")
+        res = create_HYPERPINN(jax.random.PRNGKey(3), ((eqx.nn.Linear, din, hid), (jnp.tanh,), (eqx.nn.Linear, hid, m)), _eqt(kind),
+                               hyperparams=keys, hypernet_input_size=nin, dim_x=d,
+                               eqx_list_hyper=((fac, 17, 23),) if hyper_arch == "opaque" else None,
+                               shared_pinn_outputs=slices)
+        us = res if shared else [res]
+        u0 = us[0]
+        if hyper_arch == "opaque":
+            H = fac.made[0]
+            if (H.n, H.m) != (nin + 1, total):
+                raise AssertionError(f"hyper layer built with sizes ({H.n - 1}, {H.m}), expected ({nin}, {total})")
+        else:
+            lw = [np.asarray(l, dtype=float) for l in jax.tree_util.tree_leaves(u0.params_hyper)]
+        def fn(th, t, x, a, b):
+            if hyper_arch == "opaque":
+                nn = jax.tree_util.tree_map(lambda leaf: th, u0.params_hyper)
+            else:
+                nn = u0.params_hyper
+            params = Params(nn_params=nn, eq_params={"a": a, "b": b, "unused": a * 3})
+            args = {"ODE": (t,), "statio": (x,), "nonstatio": (t, x)}[kind]
+            return [u(*args, params) for u in us]
+        def spec(th, t, x, a, b, wrong=False):
+            inp = {"ODE": [t[0]], "statio": pts(x), "nonstatio": [t[0]] + pts(x)}[kind]
+            hin = [a[()], b[0], b[1]]
+            if hyper_arch == "opaque":
+                hv = [P.app("HY0", j, (), hin + [th[0]]) for j in range(total)]
+            else:
+                W1h, b1h, W2h, b2h = lw
+                assert W1h.shape == (hid, nin) and W2h.shape == (total, hid), (W1h.shape, W2h.shape)
+                hh = [P.unary("tanh", sum((c(float(W1h[i, j])) * hin[j] for j in range(nin)), P.ZERO) + c(float(b1h[i]))) for i in range(hid)]
+                hv = [sum((c(float(W2h[i, j])) * hh[j] for j in range(hid)), P.ZERO) + c(float(b2h[i])) for i in range(total)]
+            o = 0
+            W1 = [[hv[o + i * din + j] for j in range(din)] for i in range(hid)]; o += hid * din
+            b1 = hv[o:o + hid]; o += hid
+            W2 = [[hv[o + i * hid + j] for j in range(hid)] for i in range(m)]; o += m * hid
+            b2 = hv[o:o + m]
+            if wrong:
+                b1 = b1[::-1]
+            hdn = [P.unary("tanh", sum((W1[i][j] * inp[j] for j in range(din)), P.ZERO) + b1[i]) for i in range(hid)]
+            out = [sum((W2[i][j] * hdn[j] for j in range(hid)), P.ZERO) + b2[i] for i in range(m)]
+            if not shared:
+                return [arr(lambda j: out[j[0]], (m,))]
+            res_ = []
+            for sl in slices:
+                sel = out[sl] if isinstance(sl, slice) else [out[sl]]
+                res_.append(arr(lambda j, sel=sel: sel[j[0]], (len(sel),)))
+            return res_
+        return dict(fn=fn, spec=spec, canary=lambda *z: spec(*z, wrong=True),
+                    inputs=[Inp("th", (1,)), Inp("t", (1,)), Inp("x", (max(d, 1),)), Inp("a", ()), Inp("b", (2,))])
+    return EqObligation(f"C10/create_HYPERPINN/ensures[{kind},d={d},m={m},hyper_architecture={hyper_arch},shared_pinn_outputs={int(shared)}]",
+                        build, ["jinns.utils._hyperpinn:create_HYPERPINN", "jinns.utils._hyperpinn:HYPERPINN.__post_init__",
+                                "jinns.utils._hyperpinn:HYPERPINN.eval_nn", "jinns.utils._hyperpinn:HYPERPINN._hyper_to_pinn",
+                                "jinns.utils._hyperpinn:_get_param_nb", PM + "_MLP.__post_init__", PM + "_MLP.__call__"])
+
+
 def obligations(tier):
     obs = []
+    for kind, d, m_ in (("ODE", 0, 1), ("statio", 2, 2), ("nonstatio", 1, 2)):
+        obs.append(create_hyper_ob(kind, d, m_, "opaque"))
+        if kind != "ODE" or tier == "thorough":
+            obs.append(create_hyper_ob(kind, d, m_, "default"))
+    obs.append(create_hyper_ob("statio", 1, 2, "opaque", shared=True))
     for kind, d in (("ODE", 0), ("statio", 1), ("statio", 2), ("nonstatio", 1), ("nonstatio", 2)):
         tshapes = [(), (1,)] if kind == "ODE" else [(1,)]
         for tshape in tshapes:
@@ -224,7 +300,9 @@ def obligations(tier):
     obs.append(create_pinn_ob(True, (jnp.s_[1], jnp.s_[-2:])))
     for kind in ("statio", "nonstatio"):
         for d in ((1, 2, 3) if kind == "statio" else (2, 3)):
-            for (r, m, B) in ([(1, 1, 2), (2, 2, 2)] if tier == "quick" else [(1, 1, 1), (1, 1, 2), (2, 1, 2), (2, 2, 2), (1, 3, 2)]):
+            # B = 1: a grid with a single point per axis keeps all its axes
+            for (r, m, B) in ([(1, 1, 2), (2, 2, 2), (1, 1, 1), (1, 2, 1)] if tier == "quick" else
+                              [(1, 1, 1), (1, 2, 1), (2, 3, 1), (1, 1, 2), (2, 1, 2), (2, 2, 2), (1, 3, 2)]):
                 if d == 3 and r == 2 and m == 2 and tier == "quick":
                     continue
                 obs.append(spinn_ob(kind, d, r, m, B))
